@@ -89,3 +89,19 @@ package redis
 //@ call Add$2.Conn.Send#2 assert [C10 C09] commandName == "rpush" && len(args) == 2 && args[0].(type string) && args[0].(string) == concat("queue:", q.clientID) && args[1].(type []byte)
 //@ ensures [C10] drop && dropErr == queue.ErrDropExpiredInflight && dropElem != nil && dropElem.MessageWithID.(type *queue.Publish) && dropElem.MessageWithID.(*queue.Publish) != nil && dropElem.MessageWithID.(*queue.Publish).Message != nil ==> !has(q.readCache, dropElem.MessageWithID.(*queue.Publish).Message.PacketID)
 //@ ensures [C10] drop && dropErr == queue.ErrDropExpiredInflight && dropElem != nil && dropElem.MessageWithID.(type *queue.Pubrel) && dropElem.MessageWithID.(*queue.Pubrel) != nil ==> !has(q.readCache, dropElem.MessageWithID.(*queue.Pubrel).PacketID)
+
+// Replace (a PUBREC arrived: the in-flight PUBLISH becomes a PUBREL): looks only at the in-flight part of the list, writes
+// the new encoding back at the index of the element with the same packet identifier, and remembers the new bytes in the
+// read cache (so that Remove later deletes what is really in the list); nothing is written when no element matches.
+//@ func (*queue.Elem).ID trusted pure
+//@ params e
+//@ func (*Queue).Replace
+//@ props C09 C10
+//@ requires [C09] q != nil && elem != nil && elem.MessageWithID != nil && q.pool != nil && q.cond != nil && q.cond.L != nil && q.readCache != nil
+//@ waive assert-type overflow
+//@ modifies heap, ghostall(redigo.Conn.$cmds), ghostall(redigo.Conn.$lastCmd), ghostall(redigo.Conn.$flushes), ghostall(redigo.Conn.$lastInt)
+//@ loop 1 invariant q != nil && q == old(q) && conn != nil && q.readCache != nil && q.readCache == old(q.readCache) && q.clientID == old(q.clientID) && elem == old(elem) && elem.MessageWithID != nil && called(Conn.Do#2) == 0 && (forall p uint16 :: has(q.readCache, p) == old(has(q.readCache, p)))
+//@ call Conn.Do#1 assert [C09] commandName == "lrange" && len(args) == 3 && args[0].(type string) && args[0].(string) == concat("queue:", q.clientID) && args[1].(type int) && args[1].(int) == 0 && args[2].(type int) && args[2].(int) == (q.current - 1 < 0 ? 0 : q.current - 1)
+//@ call Conn.Do#2 assert [C09 C10] commandName == "lset" && len(args) == 3 && args[0].(type string) && args[0].(string) == concat("queue:", q.clientID) && args[1].(type int) && args[1].(int) == k && args[2].(type []byte)
+//@ ensures [C09 C10] replaced ==> err == nil && called(Conn.Do#2) == 1 && has(q.readCache, id)
+//@ ensures [C09 C10] !replaced ==> (forall p uint16 :: has(q.readCache, p) == old(has(q.readCache, p)))
